@@ -206,3 +206,57 @@ def write_evidence(pid, tier, seed, coverage, assumptions, wall, violations):
 
 def canon(x):
     return hashlib.sha1(json.dumps(x, sort_keys=True, default=str).encode()).hexdigest()
+
+
+def run_coq_goals(pid, workdir, imports, cases, shard=40, timeout=1800, preamble=''):
+    """cases: list of {'defs': str (Coq vernac defining what the goals mention), 'goals': [(G, FAR), ...]}.
+    Each goal is decided inside Coq by `decide_case` (Core/Check.v): OK = closeness proved by interval arithmetic,
+    FAIL = the values are provably apart, INCONCLUSIVE = neither could be proved.
+    Returns a list (per case) of lists of verdict strings."""
+    os.makedirs(workdir, exist_ok=True)
+    files = []
+    gid = 0
+    index = {}
+    for k in range(0, len(cases), shard):
+        chunk = cases[k:k + shard]
+        name = 'goals_%s_%04d' % (pid, k // shard)
+        path = os.path.join(workdir, name + '.v')
+        with open(path, 'w') as f:
+            f.write('From Verif Require Import %s.\n' % ' '.join(imports))
+            f.write('Open Scope R_scope.\n' + preamble + '\n')
+            for ci, c in enumerate(chunk):
+                f.write(c['defs'] + '\n')
+                if not c['goals']:
+                    continue
+                f.write('Goal True.\n')
+                for gi, (g, far) in enumerate(c['goals']):
+                    index[gid] = (k + ci, gi)
+                    f.write('decide_case %d%%nat (%s) (%s).\n' % (gid, g, far))
+                    gid += 1
+                f.write('exact I. Qed.\n')
+        files.append(path)
+    results = [[None] * len(c['goals']) for c in cases]
+    pending = list(files)
+    running = []
+    while pending or running:
+        while pending and len(running) < NCPU:
+            path = pending.pop(0)
+            pr = subprocess.Popen(['timeout', str(timeout), 'coqc'] + COQ_ARGS + [path],
+                                  stdout=subprocess.PIPE, stderr=subprocess.STDOUT, text=True, cwd=workdir)
+            running.append((pr, path))
+        for item in list(running):
+            pr, path = item
+            if pr.poll() is not None:
+                out = pr.stdout.read()
+                running.remove(item)
+                if pr.returncode != 0:
+                    raise RuntimeError('coqc failed on %s (rc=%s):\n%s' % (path, pr.returncode, out[-3000:]))
+                for m in re.finditer(r'CASE\s+(\d+)%nat\s+(OK|FAIL|INCONCLUSIVE)', out):
+                    ci, gi = index[int(m.group(1))]
+                    results[ci][gi] = m.group(2)
+        time.sleep(0.02)
+    for ci, r in enumerate(results):
+        for gi, v in enumerate(r):
+            if v is None:
+                raise RuntimeError('no verdict for case %d goal %d' % (ci, gi))
+    return results
